@@ -6,7 +6,9 @@ cd /verif
 names=${@:-$(ls seeded)}
 for n in $names; do
   c=$(python3 -c "import json;print(json.load(open('/verif/seeded/$n/meta.json'))['caught_by'][0])")
-  out=$(tools/seed_check.sh $n $c 2>&1 | head -1)
+  tools/seed_check.sh $n $c > /tmp/seed-regress-$n.out 2>&1
+  git -C /repo reset -q --hard HEAD
+  out=$(grep -m1 -E "^seed=|DOES NOT APPLY" /tmp/seed-regress-$n.out)
   case "$out" in
     *"exit=1"*) echo "OK     $n caught by $c";;
     *"DOES NOT APPLY"*) echo "NOAPPLY $n";;
